@@ -513,11 +513,21 @@ var errSentinel = errors.New("sentinel")
 
 // wrapNode wraps a node without offering Close itself: the Broker has to find
 // the inner node's Close through Unwrap (NodeUnwrapper), possibly several levels deep.
-type wrapNode struct{ inner el.Node }
+type wrapNode struct {
+	inner     el.Node
+	Reopens   int   // calls of the wrapper's OWN Reopen (it is the registered node)
+	ReopenErr error // the wrapper itself fails to reopen
+}
 
 func (w *wrapNode) Process(ctx context.Context, e *el.Event) (*el.Event, error) {
 	return w.inner.Process(ctx, e)
 }
-func (w *wrapNode) Reopen() error     { return w.inner.Reopen() }
+func (w *wrapNode) Reopen() error {
+	w.Reopens++
+	if w.ReopenErr != nil {
+		return w.ReopenErr
+	}
+	return w.inner.Reopen()
+}
 func (w *wrapNode) Type() el.NodeType { return w.inner.Type() }
 func (w *wrapNode) Unwrap() el.Node   { return w.inner }
